@@ -15,11 +15,21 @@ EXTENDS Generator
 
 DefaultOptions == 2      \* finalize(): optimistic, legacy f32 formula, nothing permissive
 
-StreamStart(v) == [pc |-> "Reading", sg |-> GenNew(v), outcome |-> [kind |-> "None"]]
+\* buf: what the loop's read buffer holds, as far as it has been written (the rest is zero: the
+\* buffer is allocated zero-filled and reused for every read); bufKnown is FALSE once a delivery
+\* too long to model byte by byte has passed through it.
+StreamStart(v) == [pc |-> "Reading", sg |-> GenNew(v), outcome |-> [kind |-> "None"],
+                   buf |-> <<>>, bufKnown |-> TRUE]
+BufAfterWrite(buf, data) ==
+    IF Len(data) >= Len(buf) THEN data ELSE data \o SubSeq(buf, Len(data) + 1, Len(buf))
+BufPrefix(buf, n) == [i \in 1..n |-> IF i <= Len(buf) THEN buf[i] ELSE 0]
 
 \* the reader delivered `data` (1 <= Len(data) <= buffer length)
-SReadOk(v, s, data) == [s EXCEPT !.sg = GenUpdate(v, s.sg, data)]
-SReadOkPeriodic(v, s, pat, off, k) == [s EXCEPT !.sg = GenUpdatePeriodic(v, s.sg, pat, off, k)]
+SReadOk(v, s, data) == [s EXCEPT !.sg = GenUpdate(v, s.sg, data), !.buf = BufAfterWrite(s.buf, data)]
+SReadOkPeriodic(v, s, pat, off, k) == [s EXCEPT !.sg = GenUpdatePeriodic(v, s.sg, pat, off, k), !.bufKnown = FALSE]
+\* the reader claims n bytes (within the buffer) but wrote none: a buggy yet safe Read impl.
+\* The loop hashes what its buffer holds; enabled only while the buffer content is known.
+SReadLie(v, s, n) == [s EXCEPT !.sg = GenUpdate(v, s.sg, BufPrefix(s.buf, n))]
 \* `count` consecutive reads of n bytes each (logged as one event): by chunking independence
 \* (C03, MCGenChunk) the same as one delivery of count * n bytes; offW is a word, the total wide
 SReadOkRun(v, s, pat, offW, n, count) ==
@@ -28,7 +38,8 @@ SReadOkRun(v, s, pat, offW, n, count) ==
         g1     == GenUpdate(v, s.sg, PeriodicData(pat, WModSmall(offW, Len(pat)), lead))
         restW  == WSub(totalW, WOfNat(lead))
     IN  [s EXCEPT !.sg = IF restW = WZero \/ WLe(MaxGenLen, g1.len) THEN g1
-                         ELSE GenUpdatePeriodicWide(v, g1, pat, WAddNat(offW, lead), restW, <<>>)]
+                         ELSE GenUpdatePeriodicWide(v, g1, pat, WAddNat(offW, lead), restW, <<>>),
+                  !.bufKnown = FALSE]
 \* ErrorKind::Interrupted: the read is retried, nothing changes
 SReadInterrupted(v, s) == s
 \* any other error ends the run with that error and no hash
